@@ -740,15 +740,89 @@ fn run_mt(seed: u64, threads: usize, nops: usize, cap: usize, other_pages: u64) 
     MtResult { failures: fs, ops: c.0, inserted: c.1, errors: c.2 }
 }
 
+/// Two threads miss the SAME uncached key under the read lock (both parked at the hook site
+/// `cache.miss.before_write_lock`), then take the write lock one after the other.  The re-check
+/// under the write lock must make the second one re-use the first one's entry: init runs once,
+/// the cache holds the key once, both PageRefs pin the same entry, and after one of them is
+/// dropped the page survives eviction pressure on its shard.
+fn concurrent_miss_scenario(rep: &mut Report, order_first: usize) {
+    use crate::sched::*;
+    use std::sync::atomic::{AtomicU64, Ordering};
+    use std::time::Duration;
+    let cache: Arc<PageCache> = match PageCache::new(256) { Ok(c) => Arc::new(c), Err(_) => return };
+    let inits = Arc::new(AtomicU64::new(0));
+    let key = (3u32, 5u32);
+    let case = format!("concurrent miss of one key: both threads parked after the read-locked miss, thread {order_first} goes first");
+    rep.case(Some(&case));
+    rep.count("concurrent_miss_scenarios");
+    let sched = Sched::new(2);
+    let refs: Arc<Mutex<Vec<Option<PageRef<'static>>>>> = Arc::new(Mutex::new(vec![None, None]));
+    let mut handles = vec![];
+    for tid in 0..2usize {
+        let (cache, inits, refs) = (cache.clone(), inits.clone(), refs.clone());
+        handles.push(sched.spawn(tid, move || {
+            // SAFETY of the lifetime extension: the Arc<PageCache> outlives every PageRef (they are dropped below before the cache)
+            let c: &'static PageCache = unsafe { &*(Arc::as_ptr(&cache)) };
+            let r = c.get_or_insert(PageKey::new(key.0, key.1), |d| { inits.fetch_add(1, Ordering::SeqCst); fill(d, 100 + tid as u64); Ok(()) });
+            if let Ok(r) = r { refs.lock().unwrap()[tid] = Some(r); }
+        }));
+    }
+    sched.settle(Duration::from_secs(5));
+    let to_site = |tid: usize| -> StepResult {
+        let mut last = StepResult::NotRunnable;
+        for _ in 0..10 { last = sched.step(tid, Duration::from_secs(5)); if last == StepResult::Parked("cache.miss.before_write_lock") || !matches!(last, StepResult::Parked(_)) { break; } }
+        last
+    };
+    let a = to_site(0);
+    let b = to_site(1);
+    let reached = a == StepResult::Parked("cache.miss.before_write_lock") && b == StepResult::Parked("cache.miss.before_write_lock");
+    let (f, s2) = (order_first, 1 - order_first);
+    for tid in [f, s2] { for _ in 0..10 { if !matches!(sched.step(tid, Duration::from_secs(5)), StepResult::Parked(_)) { break; } } }
+    let finished = sched.all_finished();
+    sched.shutdown();
+    for h in handles { let _ = h.join(); }
+    if !reached { rep.disagree(case.clone(), format!("the scenario could not be set up (hook site not reached: {a:?} / {b:?})"), "cache-miss-scenario-setup".into()); }
+    if !finished { rep.oracle_fail(case.clone(), "a thread did not return from get_or_insert".into(), "cache:concurrent-miss:stuck".into()); return; }
+    let n_init = inits.load(Ordering::SeqCst);
+    let len = cache.len();
+    let mut rs = refs.lock().unwrap();
+    let both = rs[0].is_some() && rs[1].is_some();
+    if n_init != 1 || len != 1 || !both {
+        rep.oracle_fail(case.clone(), format!("after both get_or_insert calls returned: init ran {n_init} times, cache.len() = {len}, both refs ok = {both} (expected 1, 1, true)"), "cache:concurrent-miss:double-insert".into());
+    }
+    let v0 = rs[0].as_ref().map(|r| uniform(r.data()));
+    // drop one holder, then push more pages than the shard can hold through the same shard
+    rs[1] = None;
+    let sh = shard_of(&key);
+    let mut pushed = 0;
+    let mut p = 0u32;
+    let mut extra: Vec<PageRef<'_>> = vec![];
+    while pushed < 12 && p < 100_000 {
+        p += 1;
+        let k2 = (9u32, p);
+        if shard_of(&k2) != sh { continue; }
+        if let Ok(r) = cache.get_or_insert(PageKey::new(k2.0, k2.1), |d| { fill(d, 7); Ok(()) }) { drop(r); pushed += 1; }
+        let _ = &mut extra;
+    }
+    let still = cache.data(&PageKey::new(key.0, key.1)).map(|d| uniform(d));
+    let v_now = rs[0].as_ref().map(|r| uniform(r.data()));
+    if still.is_none() || v_now != v0 {
+        rep.oracle_fail(case.clone(), format!("the page was evicted (or changed) while a PageRef to it is alive: cached now = {still:?}, through the ref before {v0:?} / now {v_now:?}"), "cache:concurrent-miss:pinned-page-evicted".into());
+    }
+    rs[0] = None;
+    drop(rs);
+}
+
 pub fn run(ctx: &Ctx) -> Report {
     let mut rep = Report::new(
         "sieve",
         "sequential op sequences (insert / failing insert / get / unpin / write / read / dirty flags / other-pool \
          pressure / evict_all_unpinned / clear) on caches whose used shards hold 1..4 pages, with and without a \
          memory budget that leaves 0..7 pages; compared step by step with the model including the private \
-         shard state (hook). Multi-thread: 3 real threads on 5..7 keys, monitors only. non-trivial = distinct \
+         shard state (hook). Forced interleaving: two threads miss the same uncached key under the read lock (hook site before the write lock), then insert one after the other - init must run once, one entry, the page must survive eviction pressure while one PageRef is alive. Multi-thread: 3 real threads on 5..7 keys, monitors only. non-trivial = distinct \
          sequence in which at least one page was evicted to make room",
     );
+    if ctx.replay.is_none() { for first in [0usize, 1] { concurrent_miss_scenario(&mut rep, first); } }
     let mut rng = Rng::new(ctx.seed ^ 0x35);
     let mut cases: Vec<(usize, Option<u64>, Vec<Op>, &'static str)> = vec![];
     let mut mt_cases: Vec<(u64, usize, usize, usize, u64)> = vec![];
